@@ -498,8 +498,8 @@ pub fn run(out: &mut Out, rng: &mut Rng, tier: Tier) {
 
     // ---- part 3: behaviour -------------------------------------------------------------------
     let plan = DeliveryPlan {
-        per_vector_range_sites: tier.n(16, 256),
-        per_vector_literal_sites: tier.n(2, 16),
+        per_vector_range_sites: tier.n(16, 1024),
+        per_vector_literal_sites: tier.n(2, 64),
     };
     let mut stopped = false;
     'sites: for (si, site) in all_sites.iter().enumerate() {
